@@ -391,11 +391,125 @@ class Repo:
                         c._parent = n
         from .inline import inline_new_private_helpers
         self.inlined_calls = inline_new_private_helpers(self)
+        ypath0 = os.path.join(pkgdir, "core", "attributes.yml")
+        if os.path.exists(ypath0):
+            self.attrs = AttrView(load_yaml(ypath0))
+            self._canon_indexers()
+            self._canon_internal_calls(os.environ.get("VSA_CALLSTYLE", "positional"))
         ypath = os.path.join(pkgdir, "core", "attributes.yml")
         if not os.path.exists(ypath):
             raise AnalysisError("wavespectra/core/attributes.yml vanished")
         self.attrs = AttrView(load_yaml(ypath))
         self._plugin_cache = None
+
+    INDEXER_METHODS = ("isel", "sel", "chunk", "interp", "rolling", "pad", "shift", "roll", "assign_coords", "reindex", "coarsen")
+
+    def _canon_indexers(self):
+        """E0 normalisation: `x.isel(**{K: v})` and `x.isel({K: v})` are stored as `x.isel(k=v)` when every key is a constant
+        string that is an identifier (attrs.DIRNAME -> dir): one spelling of the dict-or-kwargs calling convention of xarray."""
+        for m in self.modules.values():
+            changed = False
+            for c in ast.walk(m.tree):
+                if not (isinstance(c, ast.Call) and isinstance(c.func, ast.Attribute) and c.func.attr in self.INDEXER_METHODS):
+                    continue
+                d = None
+                if c.func.attr in ("rolling", "coarsen") and len(c.args) == 1 and not isinstance(c.args[0], ast.Dict) \
+                        and not any(k.arg == "dim" for k in c.keywords):
+                    c.keywords = [ast.keyword(arg="dim", value=c.args[0])] + c.keywords      # rolling(dim, ...) == rolling(dim=dim, ...)
+                    c.args = []
+                    changed = True
+                    continue
+                if len(c.args) == 1 and isinstance(c.args[0], ast.Dict) and not any(k.arg is None for k in c.keywords):
+                    d, where = c.args[0], "pos"
+                elif not c.args and sum(1 for k in c.keywords if k.arg is None) == 1:
+                    kk = [k for k in c.keywords if k.arg is None][0]
+                    if isinstance(kk.value, ast.Dict):
+                        d, where = kk.value, "star"
+                if d is None or any(k is None for k in d.keys):
+                    continue
+                keys = [self.const(m, k) for k in d.keys]
+                if not all(isinstance(k, str) and k.isidentifier() for k in keys):
+                    continue
+                if any(k in {x.arg for x in c.keywords if x.arg} for k in keys):
+                    continue
+                new = [ast.keyword(arg=k, value=v) for k, v in zip(keys, d.values)]
+                if where == "pos":
+                    c.args = []
+                    c.keywords = new + c.keywords
+                else:
+                    c.keywords = [x for x in c.keywords if x.arg is not None] + new
+                changed = True
+            if changed:
+                for n in ast.walk(m.tree):
+                    for ch in ast.iter_child_nodes(n):
+                        ch._parent = n
+
+    def _canon_internal_calls(self, style):
+        """E0 normalisation: calls of package functions (plain, imported, module.func, self.method) get one argument style -
+        the maximal positional prefix in signature order, the rest as keywords - so that `scaled(spec=x, hs=h)` and
+        `scaled(x, h)` are one program.  Arguments are only re-spelled, never reordered in evaluation when that could matter:
+        a call is left alone unless every re-spelled argument is a name / attribute / constant or the order is unchanged."""
+        from .astutil import bound_args
+        from .inline import _simple
+        if style == "off":
+            return
+        for m in self.modules.values():
+            todo = [(fi, fi.node) for fi in m.funcs.values()] + [(fi, fi.node) for c in m.classes.values() for fi in c.methods.values()]
+            for fi, node in todo:
+                for c in ast.walk(node):
+                    if not isinstance(c, ast.Call) or any(isinstance(a, ast.Starred) for a in c.args) or any(k.arg is None for k in c.keywords):
+                        continue
+                    if not c.keywords:
+                        continue
+                    try:
+                        tgt = self._callee(fi, c)
+                    except Exception:
+                        tgt = None
+                    if tgt is None:
+                        continue
+                    a = tgt.node.args
+                    if a.vararg or a.posonlyargs:
+                        continue
+                    pos = [x.arg for x in a.args]
+                    if tgt.cls is not None and pos and pos[0] in ("self", "cls"):
+                        pos = pos[1:]
+                    given = dict(zip(pos, c.args))
+                    if len(c.args) > len(pos):
+                        continue
+                    kws = {k.arg: k.value for k in c.keywords}
+                    if any(k in given for k in kws):
+                        continue
+                    new_args, rest = list(c.args), dict(kws)
+                    for p_ in pos[len(c.args):]:
+                        if p_ in rest:
+                            new_args.append(rest.pop(p_))
+                        else:
+                            break
+                    if len(new_args) == len(c.args):
+                        continue
+                    moved = new_args[len(c.args):]
+                    order_same = [k.arg for k in c.keywords][:len(moved)] == pos[len(c.args):len(c.args) + len(moved)]
+                    if not order_same and not all(_simple(x) for x in kws.values()):
+                        continue
+                    c.args = new_args
+                    c.keywords = [k for k in c.keywords if k.arg in rest]
+
+    def _callee(self, fi, call):
+        f = call.func
+        if isinstance(f, ast.Name):
+            t = self.resolve_symbol(fi.module, f.id)
+            return t if isinstance(t, FuncInfo) else None
+        if isinstance(f, ast.Attribute) and isinstance(f.value, ast.Name) and f.value.id == "self" and fi.cls is not None:
+            return fi.cls.methods.get(f.attr)
+        if isinstance(f, ast.Attribute) and isinstance(f.value, ast.Name):
+            imp = fi.module.imports.get(f.value.id)
+            if imp and imp[0] in self.modules and imp[1] is None:
+                return self.modules[imp[0]].funcs.get(f.attr)
+            if imp and imp[1]:
+                sub = self.modules.get(f"{imp[0]}.{imp[1]}")
+                if sub is not None:
+                    return sub.funcs.get(f.attr)
+        return None
 
     # ---- lookup -------------------------------------------------------------------
     def module(self, name):
